@@ -51,6 +51,10 @@ struct RunCfg {
     /// default to "inline"): set when a violation is narrowed, shortened by the minimiser
     #[serde(default)]
     sched_replay: Option<String>,
+    /// I/O fault seam: seeded short reads/writes and EINTR while reading the MIDAS files and
+    /// writing the CSV
+    #[serde(default)]
+    io_seed: Option<u64>,
 }
 
 #[derive(Clone, Debug, Serialize, Deserialize, PartialEq)]
@@ -273,7 +277,7 @@ impl Check for C19Check {
         "exploration"
     }
     fn rule(&self) -> String {
-        "scenario = a simulated run: 1..=4 files with 0..=60 events each (main events mostly light: TRG bank + a few wire/pad banks; Chronobox, sequencer and other-id events interleaved; undecodable main events of kinds no/two/bad TRG, unknown bank, bad ADC payload at the start, middle and end), a TRG 62.5 MHz counter advanced by seeded gaps (ms .. just under and over 2^32 ticks) so it wraps several times, files .mid/.mid.lz4, LE/BE, 16/32/32a-bit banks; optionally one file-level fault (file of another run, duplicate initial timestamp, unknown extension). Each scenario is executed under 3-4 configurations of alpha-g-vertices {argv permutation, RAYON_NUM_THREADS in 1,2,3,5,8,16, scheduler seed (simulated rayon-core: per-join steal / completion-order decisions), hash seed, --verbose} and 2 of alpha-g-trg-scalers. Oracles: I1/I2 one row per main event in order of (file initial timestamp, position), with its serial; I3 undecodable <=> empty fields, decodable and values taken from the real library in-process on the same banks; I4 trg_time differences = sum of 32-bit wrapped differences over consecutive decodable events / 62.5 MHz (+-4 ns); I5 CSV byte-identical from line 3 across all configurations; I6 faulty file sets refused without CSV. Non-trivial = at least two process runs on a run with >= 1 main event; distinct = distinct event-log hashes (file bytes, configurations, CSV bodies).".into()
+        "scenario = a simulated run: 1..=4 files with 0..=60 events each (main events mostly light: TRG bank + a few wire/pad banks; Chronobox, sequencer and other-id events interleaved; undecodable main events of kinds no/two/bad TRG, unknown bank, bad ADC payload at the start, middle and end), a TRG 62.5 MHz counter advanced by seeded gaps (ms .. just under and over 2^32 ticks) so it wraps several times, files .mid/.mid.lz4, LE/BE, 16/32/32a-bit banks; optionally one file-level fault (file of another run, duplicate initial timestamp, unknown extension). Each scenario is executed under 3-4 configurations of alpha-g-vertices {argv permutation, RAYON_NUM_THREADS in 1,2,3,5,8,16, scheduler seed (simulated rayon-core: per-join steal / completion-order decisions), hash seed, --verbose, I/O fault seed (short reads/writes and EINTR on every read(2)/write(2) of the process, in a third of the configurations)} and 2 of alpha-g-trg-scalers. Oracles: I1/I2 one row per main event in order of (file initial timestamp, position), with its serial; I3 undecodable <=> empty fields, decodable and values taken from the real library in-process on the same banks; I4 trg_time differences = sum of 32-bit wrapped differences over consecutive decodable events / 62.5 MHz (+-4 ns); I5 CSV byte-identical from line 3 across all configurations; I6 faulty file sets refused without CSV. Non-trivial = at least two process runs on a run with >= 1 main event; distinct = distinct event-log hashes (file bytes, configurations, CSV bodies).".into()
     }
     fn assumptions(&self) -> Vec<String> {
         vec![
@@ -285,7 +289,7 @@ impl Check for C19Check {
     }
     fn components(&self) -> Value {
         json!({"real": ["alpha-g-vertices, alpha-g-trg-scalers (main.rs from /repo, shadow build)", "alpha_g_analysis lib", "alpha_g_physics, alpha_g_detector", "rayon 1.8.0 iterator layer (par_extend, bridge, plumbing)", "midasio (rayon feature)", "indicatif (rayon feature)", "lz4, csv, clap"],
-               "simulated": ["rayon-core scheduler (/verif/shims/rayon-core: seeded, one thread at a time, real OS worker threads with the configured stack size)", "OS randomness for hash keys (getrandom via LD_PRELOAD)"],
+               "simulated": ["read(2)/write(2) short counts and EINTR (LD_PRELOAD, seeded)", "rayon-core scheduler (/verif/shims/rayon-core: seeded, one thread at a time, real OS worker threads with the configured stack size)", "OS randomness for hash keys (getrandom via LD_PRELOAD)"],
                "model": ["TRG 62.5 MHz counter / run timeline", "event builder incl. undecodable events", "MIDAS logger", "operator (argv, env)"],
                "stub": [], "filesystem": "real, private scratch directory under /dev/shm",
                "cross_check": "every 16th quick scenario and every 4th thorough scenario also runs a configuration on the build with the REAL rayon-core (real threads) and requires the same bytes (stub-fidelity check of the simulated scheduler)"})
@@ -356,11 +360,12 @@ impl Check for C19Check {
                 verbose: r.chance(1, 3),
                 real_rayon: false,
                 sched_replay: None,
+                io_seed: if r.chance(1, 3) { Some(r.next_u64() >> 1) } else { None },
             })
             .collect();
         if (tier == Tier::Thorough && index % 4 == 0) || (tier == Tier::Quick && index % 16 == 0) {
             // stub-fidelity cross-check on real threads
-            cfgs.push(RunCfg { argv_seed: r.next_u64(), threads: *r.pick(&[1u32, 2, 5, 16]), sched_seed: 0, hash_seed: r.next_u64() >> 1, verbose: false, real_rayon: true, sched_replay: None });
+            cfgs.push(RunCfg { argv_seed: r.next_u64(), threads: *r.pick(&[1u32, 2, 5, 16]), sched_seed: 0, hash_seed: r.next_u64() >> 1, verbose: false, real_rayon: true, sched_replay: None, io_seed: None });
         }
         let file_fault = if index % 7 == 3 {
             Some(match r.below(3) {
@@ -518,7 +523,11 @@ impl Check for C19Check {
                 sched_log: if cfg.real_rayon { None } else { Some(slog.clone()) },
                 sched_replay: sreplay,
                 real_rayon: cfg.real_rayon,
+                io_seed: cfg.io_seed,
             };
+            if cfg.io_seed.is_some() {
+                stats.fault("io_short_reads_writes_and_eintr");
+            }
             let extra: Vec<&str> = if cfg.verbose { vec!["--verbose"] } else { vec![] };
             stats.executions += 1;
             let res = run_binary("alpha-g-vertices", &scratch.dir, &argv, &extra, &format!("vtx{ci}"), &env);
@@ -618,7 +627,7 @@ impl Check for C19Check {
         let mut stails: Vec<Vec<u8>> = Vec::new();
         for (ci, cfg) in scn.cfgs.iter().take(2).enumerate() {
             let argv: Vec<_> = Rng::new(cfg.argv_seed ^ 0x55).perm(paths.len()).into_iter().map(|k| paths[k].clone()).collect();
-            let env = RunEnv { hash_seed: Some(cfg.hash_seed), real_rayon: true, ..Default::default() };
+            let env = RunEnv { hash_seed: Some(cfg.hash_seed), real_rayon: true, io_seed: cfg.io_seed, ..Default::default() };
             let extra: Vec<&str> = if cfg.verbose { vec!["--verbose"] } else { vec![] };
             stats.executions += 1;
             let res = run_binary("alpha-g-trg-scalers", &scratch.dir, &argv, &extra, &format!("sca{ci}"), &env);
@@ -771,6 +780,11 @@ impl Check for C19Check {
             if c.verbose {
                 let mut s = scn.clone();
                 s.cfgs[ci].verbose = false;
+                push(s);
+            }
+            if c.io_seed.is_some() {
+                let mut s = scn.clone();
+                s.cfgs[ci].io_seed = None;
                 push(s);
             }
         }
